@@ -108,7 +108,7 @@ udf: or the UDF was aborted). -/
 def exitOk (nd : Nd) : Bool :=
   match nd.kind with
   | .alert _ => nd.hand = 0 ∧ nd.inq = 0 ∧ nd.inClosed ∧ nd.helperDone
-  | .udf => (nd.hand = 0 ∧ nd.inq = 0 ∧ nd.inClosed) ∨ nd.stopping
+  | .udf => (nd.hand = 0 ∧ ((nd.inq = 0 ∧ nd.inClosed) ∨ nd.stopping)) ∨ (nd.stopping ∧ nd.fwdDead)
   | _ => nd.hand = 0 ∧ nd.inq = 0 ∧ nd.inClosed
 
 /-- runF returns an error (repaired alert node: after CloseTopic). -/
@@ -200,7 +200,7 @@ def nodeStep (env : Env) (a : NAct) (nd : Nd) (child : Option Nd) : Option NRes 
     else if nd.failed then
       if exitFailedOk env nd then some ⟨{ nd with done := true, inAborted := true }, child.map closeIn, false⟩ else none
     else if exitOk nd then
-      -- (an aborted UDF drops the message it still holds)
+      -- (an aborted UDF whose forwarding goroutine is gone drops the message it still holds)
       some ⟨{ nd with done := true, hand := 0, dropped := nd.dropped + nd.hand }, child.map closeIn, false⟩
     else none
 
